@@ -700,6 +700,16 @@ def _tag_atoms(p, env):
                 for x, y in ((a, b), (b, a)):
                     if x[0] == 'call' and x[1] == 'object::Object::tag' and y[0] == 'enum':
                         out.append((canon(env, x[2][0]), y[2], equal))
+            elif v[0] == 'call' and v[1] == 'object::Object::is_heap_allocated' and len(v[2]) == 1 and truth(c) is not None and _CTX[0] is not None:
+                # `if !self.is_heap_allocated() { return }`: the types that live in a heap box / those that do not
+                try:
+                    from rules import c15 as _c15
+                    from rules.unsafe_inv import TYPE as _TY
+                    heap_ = set(_c15.heap_types(_CTX[0]))
+                    all_ = {n_ for n_, _d in _CTX[0].facts().enum_variants(_TY)}
+                    out.append((canon(env, v[2][0]), ('oneof', frozenset(heap_ if truth(c) else all_ - heap_)), True))
+                except Exception:
+                    pass
             elif v[0] == 'call' and len(v[2]) == 1 and (v[1].startswith('object::Type::') or v[1].startswith('<object::Type')) and truth(c) is not None:
                 # a predicate of Type (`tag.ordered()`, `tag.is_heap()`): the variants for which it answers what the path took
                 a = deref(env, v[2][0])
